@@ -23,17 +23,19 @@ event tokens:   S k a s acc [ events ]     wired send on link k from end A (a=1)
                 F c i v                    wireless interface enable/disable took effect
                 L k a s [ events ]         wired send that never returned (an exception unwound through transmit_frame)
                 M c i s [ events ]         wireless send that never returned (an exception unwound through AirSpace.transmit)
+                R c i j                    (inside a wireless send by i) the loop of AirSpace.transmit hands the frame to interface j
 -/
 
 def showVerdict : Verdict → String
   | .nolink => "nolink" | .disabled => "disabled" | .down => "down" | .full => "full"
-  | .rejected => "rejected" | .carried => "carried" | .lost => "lost"
+  | .rejected => "rejected" | .carried => "carried" | .lost => "lost" | .heard => "heard" | .deaf => "deaf"
 
 def showRec (r : Rec) : String :=
-  if r.wireless then
-    -- a wireless send cut short by an exception: which receivers had been reached is not compared
-    let rcv := if r.verdict == .lost then "*" else ",".intercalate (r.rcv.map toString)
-    s!"W{r.k}:{showVerdict r.verdict}:{showBool r.enS}:{rcv}:{r.load}"
+  if r.verdict == .heard || r.verdict == .deaf then
+    -- one turn of the loop of AirSpace.transmit: channel, interface reached, does it hear the frame
+    s!"H{r.k}:{",".intercalate (r.rcv.map toString)}:{showVerdict r.verdict}"
+  else if r.wireless then
+    s!"W{r.k}:{showVerdict r.verdict}:{showBool r.enS}:{r.load}"
   else
     s!"S{r.k}:{showVerdict r.verdict}:{showBool r.enS}{showBool r.enR}:{r.load}"
 
@@ -62,6 +64,10 @@ def parseEv : Nat → List String → Option (Ev × List String)
     match c.toNat?, i.toNat?, s.toNat?, parseEvs fuel rest with
     | some c, some i, some s, some (nested, rest') => some (.wlost c i s nested, rest')
     | _, _, _, _ => none
+  | _ + 1, "R" :: c :: i :: j :: rest =>
+    match c.toNat?, i.toNat?, j.toNat? with
+    | some c, some i, some j => some (.wrecv c i j, rest)
+    | _, _, _ => none
   | _ + 1, "E" :: k :: a :: v :: rest =>
     match k.toNat?, parseBool a, parseBool v with
     | some k, some a, some v => some (.setEn k a v, rest)
